@@ -166,7 +166,9 @@ func (i *Index) Add(r Record, c bgzf.Chunk, mapped, placed bool) error {
 	ref := &i.refs[rid]
 
 	// Record bin information.
-	b := reg2bin(int64(r.Start()), int64(r.End()), i.minShift, i.depth)
+	// An alignment that consumes no reference is treated as
+	// having length one: last+1 is End(), or Start()+1.
+	b := reg2bin(int64(r.Start()), int64(last)+1, i.minShift, i.depth)
 	for i, bin := range ref.bins {
 		if bin.bin == b {
 			for j, chunk := range ref.bins[i].chunks {
